@@ -317,6 +317,58 @@ theorem c19_run_uniform (cfg : Cfg) (d g b : Int) (ra0 : Bool) (ras : List Bool)
   have H : RunHyp cfg a d K g := ⟨hr, hd, hs, rfl, hapos, rfl, hrg, hg, hag⟩
   exact run_uniform H b hb ra0 ras
 
+/-- PART-TARGET along a run: whenever the state knows a non-final part (in particular whenever a
+served playlist lists one — it lists the open segment and the last two finished ones, a subset of the
+window), the muxer's `partTargetDuration` state equals `T = ceilMs (partNs 0 K d r)`, the millisecond
+ceiling of a `K`-sample part — one fixed value for the whole run. Hence the announced PART-TARGET is
+the same in any two playlists that list a non-final part, every such part `P` satisfies
+`P ≤ T` and (by `c19_85_100`, `P ≥ PartMinDuration ≥ 5.1 ms`) `85·T ≤ 100·P`. Needs `r ≤ 1 MHz`
+(`c19_target_stable`) in addition to the hypotheses of `c19_run_uniform`. -/
+theorem c19_run_target (cfg : Cfg) (d g b : Int) (ra0 : Bool) (ras : List Bool)
+    (hr : 0 < cfg.rate) (hr6 : cfg.rate ≤ 1000000) (hd : 0 < d) (hs : timestampToDuration d cfg.rate ≠ 0)
+    (hm : 0 < cfg.partMin) (hrg : cfg.rate ≤ g) (hg5 : g ∣ 5000000) (hgm : g ∣ cfg.partMin)
+    (hb : 0 ≤ b + durationToTimestamp 10000000000 cfg.rate) :
+    let a := findCompatiblePartDuration cfg.partMin [timestampToDuration d cfg.rate]
+    let K := partSamples a d cfg.rate
+    let s := runFrom { cfg := cfg } b d (ra0 :: ras)
+    nonFinal s ≠ [] →
+      s.partTarget = ceilMs (partNs 0 K d cfg.rate) ∧
+      ∀ p ∈ nonFinal s, p ≤ s.partTarget ∧ ceilMs p = s.partTarget := by
+  intro a K s hne
+  obtain ⟨_, j, he, _, _⟩ := c19_fuel_sufficient cfg.partMin [timestampToDuration d cfg.rate]
+  rw [findStep_val] at he
+  have hj : (0 : Int) ≤ j := Int.natCast_nonneg _
+  have hapos : 0 < a := by
+    show 0 < findCompatiblePartDuration cfg.partMin [timestampToDuration d cfg.rate]
+    rw [he]; omega
+  have hag : g ∣ a := by
+    show g ∣ findCompatiblePartDuration cfg.partMin [timestampToDuration d cfg.rate]
+    rw [he]
+    exact Int.dvd_add hgm (Dvd.dvd.mul_right hg5 _)
+  have hg : g ∣ 1000000000 := Int.dvd_trans hg5 (by decide)
+  have H : RunHyp cfg a d K g := ⟨hr, hd, hs, rfl, hapos, rfl, hrg, hg, hag⟩
+  have hK0 : 0 ≤ K := by have := H.K_pos; omega
+  obtain ⟨t, ht, hpt⟩ := run_target H b hb ra0 ras hne
+  have hstab : ∀ t', 0 ≤ t' → ceilMs (partNs t' K d cfg.rate) = ceilMs (partNs 0 K d cfg.rate) :=
+    fun t' ht' => c19_target_stable t' 0 K d cfg.rate hd hr hr6 ht' (Int.le_refl 0) hK0
+  have hT : s.partTarget = ceilMs (partNs 0 K d cfg.rate) := by
+    show (runFrom { cfg := cfg } b d (ra0 :: ras)).partTarget = _
+    rw [hpt, hstab t ht]
+  refine ⟨hT, ?_⟩
+  intro p hp
+  obtain ⟨t0, ht0, hpe⟩ := run_uniform H b hb ra0 ras p hp
+  have hc : ceilMs p = s.partTarget := by rw [hT, hpe, hstab t0 ht0]
+  refine ⟨?_, hc⟩
+  -- p ≤ ceilMs p
+  have hp0 : 0 ≤ p := by
+    rw [hpe, partNs_eq ht0 hK0 (Int.le_of_lt hd) hr]
+    have := Int.ediv_le_ediv hr (by
+      have : 0 ≤ K * d * 1000000000 := Int.mul_nonneg (Int.mul_nonneg hK0 (Int.le_of_lt hd)) (by decide)
+      omega : t0 * 1000000000 ≤ t0 * 1000000000 + K * d * 1000000000)
+    omega
+  have := (ceilDiv_spec hp0 (by decide : (0 : Int) < msNs)).1
+  rw [← hc]; exact this
+
 -- 30 fps at 90 kHz, PartMinDuration 200 ms, 14 samples from DTS 0 (key frame first): two full parts
 -- of 6 samples = 200 ms each
 set_option maxRecDepth 20000 in
@@ -325,6 +377,9 @@ example :
     (runFrom { cfg := cfg } 0 3000
       [true, false, false, false, false, false, false, false, false, false, false, false, false, false]).openParts
       = [200000000, 200000000] ∧
+    (runFrom { cfg := cfg } 0 3000
+      [true, false, false, false, false, false, false, false, false, false, false, false, false, false]).partTarget
+      = ceilMs (partNs 0 6 3000 90000) ∧
     partSamples 200000000 3000 90000 = 6 ∧ (5000000 : Int) ∣ 200000000 := by decide
 
 end Hls.Props.C19
